@@ -98,6 +98,7 @@ func (c *FnCtx) chanRecv(fr *Frame, st *State, x *ssa.UnOp) SV {
 	ch := c.term(fr, st, x.X)
 	et := x.X.Type().Underlying().(*types.Chan).Elem()
 	key := c.opKeyOf(fr, x)
+	c.callSiteAsserts(fr, st, x)
 	c.ogBefore(fr, st, key)
 	c.chanFacts(st, ch)
 	en := c.recvEnabled(st, ch)
